@@ -14,7 +14,7 @@ def PGood (p : Proxy) : Prop :=
   p.stage = .running → Reach p.sys ∧ p.sys.closing = p.closing
 
 theorem closing_step {s s' : Sys} {l : Label} (hl : l ≠ .closing) (h : step s l = some s') : s'.closing = s.closing := by
-  obtain ⟨⟨cr, cw, cf, co, ce, cl, cs, cx, cm⟩, ⟨sr, sw, sf, so, se, sl, ss, sx, sm⟩, dn, clg, wt, rt, scc, ccc⟩ := s
+  obtain ⟨⟨cr, cw, cf, co, ce, cl, cs, cx, cm, cq⟩, ⟨sr, sw, sf, so, se, sl, ss, sx, sm, sq⟩, dn, clg, wt, rt, scc, ccc⟩ := s
   step_cases (first | rfl | (exfalso; exact hl rfl))
 
 theorem pgood_step {p p' : Proxy} {l : PLabel} (hg : PGood p) (h : pstep p l = some p') : PGood p' := by
